@@ -41,6 +41,7 @@ type dsseKey struct {
 	sv   signature.SignerVerifier
 	pub  crypto.PublicKey
 	pubB []byte
+	pri  crypto.PrivateKey
 }
 
 // Universe is the set of keys a campaign draws signers and trusted keys from.
@@ -85,6 +86,14 @@ func loadPEMKey(path string) (crypto.PrivateKey, error) {
 // for the shipped signed images) plus freshly generated ones of every kind.
 func getUniverse() *Universe {
 	universeOnce.Do(func() {
+		// a child process works with its parent's keys (VERIF_UNIVERSE names the file the parent
+		// saved them in): images the parent signed must verify in the child
+		if p := os.Getenv("VERIF_UNIVERSE"); p != "" {
+			if u := loadUniverse(p); u != nil {
+				universe = u
+				return
+			}
+		}
 		u := &Universe{}
 		repo := envOr("REPO", "/repo")
 		if f, err := os.Open(filepath.Join(repo, "test", "keys", "private.asc")); err == nil {
@@ -115,7 +124,7 @@ func getUniverse() *Universe {
 				return
 			}
 			pub, _ := sv.PublicKey()
-			u.DSSE = append(u.DSSE, dsseKey{kind: kind, sv: sv, pub: pub, pubB: pubBytes(pub)})
+			u.DSSE = append(u.DSSE, dsseKey{kind: kind, sv: sv, pub: pub, pubB: pubBytes(pub), pri: pri})
 		}
 		for _, n := range []string{"ed25519", "ecdsa", "rsa"} {
 			if k, err := loadPEMKey(filepath.Join(repo, "test", "keys", n+"-private.pem")); err == nil {
@@ -133,6 +142,78 @@ func getUniverse() *Universe {
 		universe = u
 	})
 	return universe
+}
+
+// saveUniverse writes every key of the universe (private parts included) for child processes.
+func (u *Universe) save(path string) error {
+	type saved struct {
+		PGP  [][]byte
+		DSSE []struct {
+			Kind string
+			Key  []byte
+		}
+	}
+	var sv saved
+	for _, e := range u.PGP {
+		var b bytes.Buffer
+		if err := e.SerializePrivateWithoutSigning(&b, nil); err != nil {
+			return err
+		}
+		sv.PGP = append(sv.PGP, b.Bytes())
+	}
+	for _, k := range u.DSSE {
+		der, err := x509.MarshalPKCS8PrivateKey(k.pri)
+		if err != nil {
+			return err
+		}
+		sv.DSSE = append(sv.DSSE, struct {
+			Kind string
+			Key  []byte
+		}{k.kind, der})
+	}
+	b, err := json.Marshal(sv)
+	if err != nil {
+		return err
+	}
+	return os.WriteFile(path, b, 0o600)
+}
+
+func loadUniverse(path string) *Universe {
+	b, err := os.ReadFile(path)
+	if err != nil {
+		return nil
+	}
+	var sv struct {
+		PGP  [][]byte
+		DSSE []struct {
+			Kind string
+			Key  []byte
+		}
+	}
+	if json.Unmarshal(b, &sv) != nil {
+		return nil
+	}
+	u := &Universe{}
+	for _, p := range sv.PGP {
+		el, err := openpgp.ReadKeyRing(bytes.NewReader(p))
+		if err != nil || len(el) != 1 {
+			return nil
+		}
+		u.PGP = append(u.PGP, el[0])
+	}
+	for _, k := range sv.DSSE {
+		pri, err := x509.ParsePKCS8PrivateKey(k.Key)
+		if err != nil {
+			return nil
+		}
+		s, err := signature.LoadSignerVerifier(pri, crypto.SHA256)
+		if err != nil {
+			return nil
+		}
+		pub, _ := s.PublicKey()
+		u.DSSE = append(u.DSSE, dsseKey{kind: k.Kind, sv: s, pub: pub, pubB: pubBytes(pub), pri: pri})
+	}
+	return u
 }
 
 func (u *Universe) pgpIndex(e *openpgp.Entity) int {
